@@ -46,3 +46,90 @@ PROPS = {
         time_limit=dict(quick=300, thorough=1800),
     ),
 }
+
+
+# ------------------------------------------------------------------------------------------------ C08
+KINDS = ("s", "-inf", "+inf", "nan")
+
+
+def _pat(D, **kw):
+    base = dict(x0=["s"] * D, lb=["s"] * D, ub=["s"] * D, plb=["s"] * D, pub=["s"] * D)
+    base.update(kw)
+    return base
+
+
+def c08_jobs(tier):
+    jobs = []
+    seen = set()
+
+    def add(D, pat, spell=None, **kw):
+        key = repr((D, sorted(pat.items(), key=str), sorted((spell or {}).items()), sorted(kw.items())))
+        if key in seen:
+            return
+        seen.add(key)
+        jobs.append(J("h_bc:HBC", D=D, pat=pat, spell=spell or {}, nonlinear=False, **kw))
+    # D = 1
+    vecs = ("x0", "lb", "ub", "plb", "pub")
+    if tier == "thorough":
+        opts = [None] + [[k] for k in KINDS]
+        for combo in itertools.product(opts, repeat=5):
+            add(1, dict(zip(vecs, combo)))
+    else:
+        add(1, _pat(1))
+        for v in vecs:                       # single deviations from all-finite
+            for alt in (None, ["-inf"], ["+inf"], ["nan"]):
+                add(1, _pat(1, **{v: alt}))
+        for x0 in (["s"], None, ["nan"]):    # unbounded / half bounded / defaults
+            add(1, _pat(1, x0=x0, lb=["-inf"], ub=["+inf"]))
+            add(1, _pat(1, x0=x0, lb=None, ub=None))
+            add(1, _pat(1, x0=x0, lb=["s"], ub=["+inf"]))
+            add(1, _pat(1, x0=x0, lb=["-inf"], ub=["s"]))
+            add(1, _pat(1, x0=x0, plb=None, pub=None))
+            add(1, _pat(1, x0=x0, plb=None, pub=None, lb=None, ub=None))
+            add(1, _pat(1, x0=x0, plb=None))
+            add(1, _pat(1, x0=x0, pub=None, ub=["+inf"], lb=["-inf"]))
+    # D = 2
+    add(2, _pat(2))
+    for k0 in (KINDS if tier == "thorough" else ("-inf",)):
+        add(2, _pat(2, lb=["s", "-inf"], ub=["s", "+inf"]))
+        add(2, _pat(2, lb=["-inf", "s"], ub=["+inf", "s"]))
+        add(2, _pat(2, lb=["s", "-inf"], ub=["s", "s"]))
+        add(2, _pat(2, lb=["-inf", "-inf"], ub=["+inf", "+inf"]))
+        add(2, _pat(2, x0=None, lb=["s", "-inf"], ub=["s", "+inf"]))
+    add(2, _pat(2, x0=None))
+    add(2, _pat(2, x0=["s", "nan"]))
+    add(2, _pat(2, plb=None, pub=None))
+    if tier == "thorough":
+        add(3, _pat(3))
+        for v in vecs:
+            for alt in KINDS[1:]:
+                add(2, _pat(2, **{v: ["s", alt]}))
+    # spellings of the same vectors
+    for sp in ("scalar", "list", "tuple", "flat"):
+        add(1, _pat(1), {v: sp for v in vecs})
+        add(1, _pat(1, x0=None), {v: sp for v in vecs})
+        add(1, _pat(1, plb=None, pub=None), {v: sp for v in vecs})
+    for sp in ("list", "tuple", "flat"):
+        add(2, _pat(2), {v: sp for v in vecs})
+        add(2, _pat(2, x0=None), {v: sp for v in vecs})
+    # mismatched dimensions: one vector has a different length (concrete shape fact)
+    return jobs
+
+
+C08_LABELS = {"target_never_called_by_constructor", "rejected_only_if_invalid", "accepted_only_if_valid", "normalised_shapes",
+              "normalised_order", "x0_strictly_inside", "hard_bounds_kept"}
+
+PROPS["C08"] = dict(
+    jobs=c08_jobs, labels=C08_LABELS, exc_is_violation=True,
+    required=["rejected_only_if_invalid", "accepted_only_if_valid", "normalised_order", "x0_strictly_inside",
+              "target_never_called_by_constructor"],
+    bounds=dict(quick="D=1: ~50 kind patterns over {finite-symbolic, -inf, +inf, NaN, absent} per vector; D=2: all-finite and "
+                      "bounded/unbounded mixes; spellings scalar/list/tuple/(D,)/(1,D); inside a pattern every relative order "
+                      "and tie of the finite values is covered by the solver",
+                thorough="D=1: all 3125 kind patterns; D=2 additionally one special coordinate per vector; D=3 all-finite"),
+    outside=["'numerically indistinguishable' bounds (a rounding notion; in real arithmetic it collapses to equality)",
+             "magnitudes outside [2^-20, 2^20] (the code special-cases |bound| <= realmin)",
+             "_init_optim_state_ is a stub here: the transformer's ordering check is H-VT's ctor_accepts_valid_bounds (C11), "
+             "the mesh snapping of x0 is H-SB (C01)", "mismatched dimensions (a concrete shape test, nothing symbolic)"],
+    time_limit=dict(quick=600, thorough=7200), chunk=120,
+)
